@@ -163,4 +163,7 @@ def run(tier, seed):
         phase(res, [seed * 100000 + i for i in range(30)], 3, 3)
     else:
         phase(res, [seed * 100000 + i for i in range(500)], 6, 4)
+    if res.broken and not res.violations:
+        phase(res, [seed * 100000 + 50000 + i for i in range(120)], 4, 4)
+        res.extra["search"] = "120 extra base histories x 4 refinements"
     return res.finish()
